@@ -255,6 +255,11 @@ class Gen:
             self.bind(n, ft, fv)
             self.tupled.add(n)      # (binders of a destructuring pattern carry a narrowing as well)
         self.add_step(src, "ok", VOK, "destructure", binds=[n for n, _, _ in names])
+        if form == "nested-literal":
+            # a literal inside the pattern makes the step fallible: a line containing it has a result
+            # type with nil (F52: the REPL hands that unstripped type to the next line), so it stays
+            # alone on its line
+            self.items[-1]["alone"] = True
 
     def step_alias(self):
         t = self.rand_type()
@@ -344,6 +349,11 @@ class Gen:
         t, v = self.prev
         self.stats["consume_prev"] += 1
         r = rng.random()
+        if t == "ok" and r < 0.3:
+            # (reported compiler defect, same in a REPL line and in one program: binding the Ok of a
+            # preceding match step `v =p` with `=b` makes a later `v =q` statically fail:
+            # `n = 5, n =v3, =b, n =v5` evaluates to [])
+            r = 0.5
         if r < 0.3:
             name = self.pick_name()
             src = rng.choice(["~ =%s", "=%s"]) % name
@@ -448,7 +458,7 @@ def cut_points(items):
     forced, free = set(), []
     for p in range(1, len(items)):
         a, b = items[p - 1], items[p]
-        if a["kind"] == "reject" or b["kind"] == "reject":
+        if a["kind"] == "reject" or b["kind"] == "reject" or a.get("alone") or b.get("alone"):
             forced.add(p)
         elif b["kind"] == "alias":
             forced.add(p)       # the parser accepts aliases only in front of the first expression
